@@ -281,6 +281,19 @@ def _min_gram_det(points, relative=False):
     return best
 
 
+def _min_face_normal(points):
+    """smallest non-zero |(b-a) x (c-a)| over all vertex triples: the plane
+    tests of the Jolt solver compare n.p (n un-normalised) with an absolute
+    EPSILON, i.e. a distance of EPSILON/|n|"""
+    P = np.array(points, dtype=float)
+    best = np.inf
+    for i, j, k in itertools.combinations(range(len(P)), 3):
+        n = float(np.linalg.norm(np.cross(P[j] - P[i], P[k] - P[i])))
+        if 0.0 < n < best:
+            best = n
+    return best
+
+
 def match_known(f, case, known):
     """C18-K1: the original GJK's backup procedure compares cofactor-like
     quantities (which scale with size^6) with an absolute 10*eps; for
@@ -290,6 +303,7 @@ def match_known(f, case, known):
     if "C18-K1" in ids and f["bucket"].startswith("original/") and \
             (_min_gram_det(case["points"]) < 1e-9 or _min_gram_det(case["points"], relative=True) < 1e-6):
         return "C18-K1"
-    if "C18-K2" in ids and f["bucket"].startswith("jolt/") and (m <= 1e-5 or _min_gram_det(case["points"]) <= 1e-26):
+    if "C18-K2" in ids and f["bucket"].startswith("jolt/") and \
+            (m <= 1e-5 or _min_gram_det(case["points"]) <= 1e-26 or _min_face_normal(case["points"]) <= 1e-7):
         return "C18-K2"
     return None
